@@ -10,7 +10,7 @@ import itertools
 import random
 
 from .. import tlc, tlaval
-from ..common import chunks, pmap, CPUS
+from ..batch import run_batches
 from .. import project as P
 
 MC_CFG = """SPECIFICATION Spec
@@ -231,24 +231,25 @@ def run(ctx):
     cases += _random_cases(rng, randoms)
     for idx, case in enumerate(cases):
         case["id"] = idx
-    events = [ev for part in pmap(_observe_many, chunks(cases, CPUS * 4)) for ev in part]
-    by_id = {}
-    for case in cases:
+    samples = {}
+    keys = ("ov", "co", "di", "cn", "cn2", "cnt", "ret", "rt", "br", "fw", "perms")
+
+    def describe(case, event):
         locs = [case[k] for k in ("a", "b") if k in case] + case.get("locs", [])
-        by_id[case["id"]] = {"op": case["op"], "input": case_input(case), "call": call_text(case),
-                             "features": _features(case["L"], case["circ"], locs), "sampled": case.get("sampled", False)}
         if any(_touches_origin(x, case["L"]) for x in locs):
             ctx.nontrivial_case(case["id"])
-    for event in events:
         event.pop("sampled", None)
-    observed = {ev["id"]: ev for ev in events}
-    for ident in by_id:
-        by_id[ident]["observed"] = {k: v for k, v in observed[ident].items()
-                                    if k in ("ov", "co", "di", "cn", "cn2", "cnt", "ret", "rt", "br", "fw")}
+        entry = {"op": case["op"], "input": case_input(case), "call": call_text(case),
+                 "features": _features(case["L"], case["circ"], locs), "sampled": case.get("sampled", False),
+                 "observed": {k: v for k, v in event.items() if k in keys}}
+        if case["id"] in (0, len(cases) // 3, len(cases) - 1):
+            samples[case["id"]] = {"case": entry["input"], "call": entry["call"], "observed": entry["observed"]}
+        return entry
+
     ctx.evaluations = len(cases)
-    ctx.validate("Ring_Trace", events, by_id)
-    for case in (cases[0], cases[len(cases) // 3], cases[-1]):
-        ctx.sample({"case": case_input(case), "call": call_text(case), "observed": by_id[case["id"]]["observed"]})
+    run_batches(ctx, "Ring_Trace", cases, _observe_many, describe, batch=60000, min_per_shard=400)
+    for ident in sorted(samples):
+        ctx.sample(samples[ident])
     ctx.exhaustive = ctx.exhaustive_triples
     ctx.rule = ("TLC enumerates every simple, origin-spanning and two-exon location of either strand for the listed record "
                 "lengths (linear and circular); every location (x all offsets and extension distances), every ordered pair "
